@@ -9,6 +9,14 @@ from .common import gt
 
 PROP = "C03"
 
+BOUNDS = {
+    "quick": "all 12 keys; D=2 fully symbolic with (K,L,M) permutations of (1,2,3), R in {1,2}, coefficients shared / per component / mixed / defaulted, densities and un-normalised measures; larger dimensions with the covariance bound to generic rationals and the mean and all coefficient vectors symbolic: D=4 (all coefficient matrices symbolic), D=5 and D=6 (one coefficient matrix symbolic, the others generic rationals; D=6 up to third order)",
+    "thorough": "D=3 fully symbolic with (K,L,M)=(2,3,4),(4,2,3); R=3; every permutation of (1,2,3); D=6 fourth-order keys with (K,L,M)=(5,4,3),(2,5,4), R=2",
+}
+ASSUMPTIONS = ["bit-exact 'integer mode' is not a separate claim: the identity is decided over exact reals, which implies it wherever floats are exact",
+               "semi-symbolic cases: the blocks listed under concrete_blocks are seeded generic rationals (a sample in those blocks, universally quantified in the rest)"]
+
+
 # key -> (list of (mat kwarg, vec kwarg, dim letter), output structure)
 AFF = {
     "(Ax+a)": [("A_mat", "a_vec", "K")],
@@ -63,12 +71,12 @@ def oracle_polys(key, forms, D, ops):
     raise KeyError(key)
 
 
-def _case(key, mkind, mode, D, R, dims, timeout=300):
+def _case(key, mkind, mode, D, R, dims, timeout=300, semi=()):
     """mkind: 'pdf' | 'measure'; mode: shared | percomp | mixed_mat_shared | mixed_vec_shared |
     default_mat | default_vec | default_all;  dims: dict K,L,M"""
     dd = "".join(f"{k}{v}" for k, v in sorted(dims.items()))
-    cid = f"C03/{key}/{mkind}/{mode}/D{D}R{R}{dd}"
-    cfg = dict(key=key, measure=mkind, coefficients=mode, D=D, R=R, **dims)
+    cid = f"C03/{key}/{mkind}/{mode}/D{D}R{R}{dd}" + ("/semi-" + "-".join(semi) if semi else "")
+    cfg = dict(key=key, measure=mkind, coefficients=mode, D=D, R=R, concrete_blocks=list(semi), **dims)
     forms = AFF.get(key, [])
 
     def has_mat(i):
@@ -88,13 +96,18 @@ def _case(key, mkind, mode, D, R, dims, timeout=300):
 
     def declare(b):
         if mkind == "pdf":
-            b.spd("S", R, D); b.free("mu", (R, D))
+            (b.const("S", b.rat_spd(R, D)) if "S" in semi else b.spd("S", R, D)); b.free("mu", (R, D))
         else:
-            b.spd("Lam", R, D); b.free("nu", (R, D)); b.free("lb", (R,))
-        for (mn, vn, letter) in forms:
+            (b.const("Lam", b.rat_spd(R, D)) if "S" in semi else b.spd("Lam", R, D)); b.free("nu", (R, D)); b.free("lb", (R,))
+        for fi, (mn, vn, letter) in enumerate(forms):
             Kd = dim_of(letter)
             if has_mat(0):
-                b.free(mn, (R, Kd, D) if mat_percomp() else (Kd, D))
+                shp = (R, Kd, D) if mat_percomp() else (Kd, D)
+                # semi "mats": every coefficient matrix but one (rotating with the key) is bound to generic rationals
+                if "mats" in semi and fi != (len(key) % max(1, len(forms))):
+                    b.const(mn, b.rat_array(shp, nonzero=True))
+                else:
+                    b.free(mn, shp)
             if has_vec(0):
                 b.free(vn, (R, Kd) if vec_percomp() else (Kd,))
         if key == "x(A'x + a)x'":
@@ -225,6 +238,20 @@ def cases(tier, seed=0):
             dims = {l: {"K": 4, "L": 2, "M": 3}[l] for l in letters}
             out.append(_case(key, "pdf", "shared", 3, 1, dims, timeout=900))
             out.append(_case(key, "pdf", "percomp", 2, 3, {l: {"K": 3, "L": 1, "M": 2}[l] for l in letters}, timeout=900))
+    # larger dimensions (the quantifier goes to D=6, K,L,M<=5): covariance bound to generic rationals, mean and every
+    # coefficient vector symbolic, one coefficient matrix symbolic ("mats") or all of them (D=4)
+    big = [(4, 1, {"K": 2, "L": 3, "M": 1}, ("S",)), (5, 1, {"K": 3, "L": 2, "M": 4}, ("S", "mats")), (6, 1, {"K": 5, "L": 4, "M": 3}, ("S", "mats"))]
+    if tier == "thorough":
+        big += [(4, 2, {"K": 3, "L": 1, "M": 2}, ("S",)), (6, 2, {"K": 2, "L": 5, "M": 4}, ("S", "mats")), (5, 1, {"K": 4, "L": 5, "M": 2}, ("S",))]
+    for key in AFF:
+        letters = sorted({f[2] for f in AFF[key]})
+        for (D_, R_, dm, sm) in big:
+            if tier == "quick" and D_ == 6 and len(AFF[key]) == 4:
+                continue        # the D=6 quartic cases take minutes: thorough tier only
+            out.append(_case(key, "pdf", "shared" if R_ == 1 else "percomp", D_, R_, {l: dm[l] for l in letters}, timeout=1500, semi=sm))
+    for key in ("xx'", "x(A'x + a)x'", "xb'xx'"):
+        out.append(_case(key, "pdf", "shared", 5, 1, {}, timeout=900, semi=("S",)))
+        out.append(_case(key, "measure", "percomp", 4, 2, {}, timeout=900, semi=("S",)))
     # de-duplicate ids (same dims can arise for keys with fewer letters)
     seen, uniq = set(), []
     for c in out:
